@@ -103,10 +103,11 @@ Proof.
   pose proof (p_disj _ _ _ _ I u t b m _ _ Hne Tu Tt). lia.
 Qed.
 
-(** entering the critical section: the ticket begins at the yielded counter *)
+(** entering the critical section: the ticket begins at the yielded counter (the thread is about to
+    look at the completed flag once more) *)
 Lemma prot_enter sc sy cur p t q :
   Prot sc sy cur p -> ticket (p t) = Some (sy, pub_incr q) -> in_crit (p t) = false ->
-  Prot sc sy cur (upd p t (PSrc q sy [])).
+  Prot sc sy cur (upd p t (PChkT q sy)).
 Proof.
   intros I Tt Ct.
   pose proof (prot_open _ _ _ _ _ _ I Tt Ct) as Hopen.
@@ -125,7 +126,7 @@ Qed.
 
 Lemma protF_enter sc sy cur p t q :
   Prot sc sy cur p -> ProtF sc sy cur p -> ticket (p t) = Some (sy, pub_incr q) -> in_crit (p t) = false ->
-  ProtF sc sy cur (upd p t (PSrc q sy [])).
+  ProtF sc sy cur (upd p t (PChkT q sy)).
 Proof.
   intros I F Tt Ct.
   pose proof (prot_open _ _ _ _ _ _ I Tt Ct) as Hopen.
